@@ -24,6 +24,10 @@ def jobs_for(tier):
     jobs += [("inflow", c) for c in SC.dsm_configs(tier)]
     jobs += [("stockdriven", dict(c, both_generic=True)) for c in SC.dsm_configs(tier) if c["n_pts"] == 1 and c["n_t"] <= 4]
     jobs += [("stockdriven", c) for c in SC.int_driver_configs(tier) + SC.layout_configs(tier)]
+    for cls in ("SimpleFlowDrivenStock", "InflowDrivenDSM"):
+        for labels in ((), ("a",)):
+            for p in ["none"] + list(SC.PERTURBATIONS):
+                jobs.append(("balcheck", dict(n_t=3, labels=labels, cls=cls, perturbation=p)))
     # a recomputed stock must balance as well (driver replaced, driver set to zero, parameters replaced)
     cfg = dict(n_t=3, labels=("a",), dist="NormalLifetime", over="all", n_pts=1, inflow_at="middle")
     for cls in ("InflowDrivenDSM", "StockDrivenDSM", "SimpleFlowDrivenStock"):
